@@ -23,6 +23,7 @@ Results
 import OpenFGAVerif.Proofs.ModelStoreHist
 import OpenFGAVerif.Proofs.ModelValidate
 import OpenFGAVerif.Gen.ModelValidation
+import OpenFGAVerif.Props.ResolverKeys
 
 namespace OpenFGAVerif.C17
 open OpenFGAVerif.Vocab OpenFGAVerif.Model.ModelStore OpenFGAVerif.Model.ModelValidate
@@ -274,5 +275,31 @@ example : ((resolve (fun m : Nat => m * 2)
     (run (fun m => m != 0) (fun m : Nat => m * 2) nextId State.empty
       [.write 0 5, .resolve 0 none, .write 0 7, .evictTs (0, 1), .write 0 0, .write 1 9]) 0 none).2).map (·.2) = some 14 := by
   decide
+
+/-! ## The resolver's singleflight and cache keys (regenerated: `Gen.ResolverKeys`)
+
+`flight_can_be_stale` above is about WHEN a shared latest-lookup was read; WHOSE model a shared lookup returns is decided by
+the key: it must determine every argument of the datastore call the flight shares. -/
+
+/-- the latest-lookup flights are keyed by the store, the by-id flight by store AND model id, both caches by store and
+model id — every argument of the shared datastore call occurs in the key -/
+theorem tie_resolver_flight_keys :
+    Gen.ResolverKeys.flightKeys.all OpenFGAVerif.Model.Resolver.keyCoversCall = true ∧
+    OpenFGAVerif.Model.Resolver.argsOf OpenFGAVerif.Model.Resolver.readKeyPieces = ["storeID", "modelID"] ∧
+    OpenFGAVerif.Model.Resolver.argsOf OpenFGAVerif.Model.Resolver.latestKeyPieces = ["storeID"] ∧
+    Gen.ResolverKeys.cacheKeys.all (fun c => c.2.contains "storeID" && c.2.contains "modelID") = true := by decide
+
+/-- **an explicit model id resolves to exactly that model of exactly that store**, for every schedule of overlapping
+requests (flights shared by key, results memoised) -/
+theorem resolved_model_is_the_requested_one
+    (byId : OpenFGAVerif.Model.Resolver.Bytes → OpenFGAVerif.Model.Resolver.Bytes → Option Nat)
+    (latest : OpenFGAVerif.Model.Resolver.Bytes → Option Nat)
+    (evs : List (OpenFGAVerif.Model.Resolver.Ev OpenFGAVerif.Model.Resolver.Req))
+    (hall : ∀ r, OpenFGAVerif.Model.Resolver.Ev.arrive r ∈ evs → OpenFGAVerif.ResolverKeys.SlashFree r) :
+    ∀ out ∈ (OpenFGAVerif.Model.Resolver.run OpenFGAVerif.Model.Resolver.groupKey (OpenFGAVerif.ResolverKeys.dsOf byId latest)
+        OpenFGAVerif.Model.Resolver.memoById
+        (OpenFGAVerif.Model.Resolver.empty : OpenFGAVerif.Model.Resolver.St OpenFGAVerif.Model.Resolver.Bytes OpenFGAVerif.Model.Resolver.Req Nat) evs).2,
+      out.2 = OpenFGAVerif.ResolverKeys.dsOf byId latest out.1 :=
+  OpenFGAVerif.ResolverKeys.resolve_exact byId latest evs hall
 
 end OpenFGAVerif.C17
